@@ -18,15 +18,25 @@ import Glom.Py.Val
       obligation on the tables)
     * `arg_val` / `_ArgValuator.mode`                                  → `argVal`
       (a `T` is evaluated by `_t_eval` against the ORIGINAL target object,
-      `Spec(T…)` likewise, `list`/`tuple`/`dict` are rebuilt with every member
-      evaluated in argument mode, everything else is passed through literally)
+      `Spec(T…)` likewise; an object whose type IS list / tuple / dict / set / frozenset
+      is rebuilt with every member evaluated in argument mode — `type(spec) in (list, dict)`,
+      `type(spec) in (tuple, set, frozenset)`: which types are tested, and that the tests are
+      EXACT type tests, are the extracted facts `argExact` / `argInst` (`rebuilds`) —;
+      everything else is passed through literally: `result = spec`.  In particular an instance
+      of a SUBCLASS of a builtin container (`Obj.sub`: namedtuple, defaultdict, OrderedDict,
+      Counter, a user's list type) falls through both tests and is returned as the very object;
+      only an `isinstance` test would take it and build another object with `type(spec)(…)`
+      (`Prim.rebuild`) — the model follows the facts, the facts obligation `argModeOk` demands
+      exact tests)
     * the `(` branch: for `op == '('` the loop does NOT run `arg_val` on the
       recorded `(args, kwargs)` (`if op != '(': arg = arg_val(…)`, commit db9b8f7;
       the exempted characters are the extracted table `argExempt`);
       `scope[glom](target, Call(cur, args, kwargs), scope)` and `Call.glomit`:
       `r(func)(*r(args), **r(kwargs))` with `r = arg_val(target, ·)` evaluate, in
-      this order, the already evaluated callee `cur` (`Prim.revalFunc`: a callable
-      is a literal in argument mode), the tuple of arguments, the dict of keyword
+      this order, the already evaluated callee `cur` (`Prim.revalFunc`: a callable — any
+      plain object — is a literal in argument mode and comes back as it is; a glom spec object
+      found in the target's data is EVALUATED against the target, which may fail, in no `try`
+      of the loop, and may change the state), the tuple of arguments, the dict of keyword
       arguments — each exactly once, against the ORIGINAL target object in the
       state at that moment — and then call.  The callee receives the very objects
       the arguments evaluate to.                                        → `stepOp`
@@ -92,6 +102,13 @@ def Kind.ofString (s : String) : Kind :=
   | some (_, k) => k
   | none => .other
 
+/-- what `_t_eval` can end with -/
+inductive Err where
+  | pae (idx : Nat) (e : PyExc)      -- PathAccessError(e, Path(_t), idx)
+  | raised (e : PyExc)               -- an exception no `except` clause of the branch names
+  | unsupported                      -- outside the C02 fragment (S/A roots, 'P', wildcards, Spec of a non-T)
+  deriving DecidableEq, Repr
+
 /-! ### primitives: Python's own semantics of the operations, a parameter -/
 
 /-- Python's own semantics on values `V` in states `S`.  Every operation
@@ -107,11 +124,19 @@ structure Prim (V S : Type) where
   mkTuple : S → List V → V × S                                  -- tuple(items)
   hashKey : S → V → Except PyExc Unit × S                       -- hash(k): TypeError for an unhashable object
   mkDict : S → List (V × V) → Except PyExc V × S                -- dict(pairs) for keys that have been hashed
+  mkSet : S → String → List V → Except PyExc V × S              -- set(items) / frozenset(items): TypeError for an unhashable member
+  /-- `type(v)(items)` for an instance `v` of a proper SUBCLASS of the builtin container `base`
+      (what an `isinstance` test in `_ArgValuator.mode` would do to it: a new object, or the
+      TypeError of a constructor with another signature — namedtuple, a user's list type).  The
+      code that exists never gets here: its tests are exact (`type(spec) in (…)`, facts
+      `argExact` / `argInst`). -/
+  rebuild : S → String → V → List V → Except PyExc V × S
   /-- `arg_val(target, cur, scope)` applied to the *already evaluated* callee `cur`
       (`r(self.func)` in `Call.glomit`; first argument after the state: the target).
-      A callable is returned as it is; a glom spec object stored inside the target's
-      data and used as callee would be evaluated here. -/
-  revalFunc : S → V → V → V × S
+      A callable is returned as it is; a glom spec object (a `T` expression, `Spec(…)`)
+      stored inside the target's data and used as callee is EVALUATED here against the
+      target — it may fail (with the error of its own chain) and may change the state. -/
+  revalFunc : S → V → V → Except Err V × S
 
 /-! ### the objects that sit in `__ops__` -/
 
@@ -125,21 +150,19 @@ inductive Obj (V : Type) where
   | list (xs : List (Obj V))           -- `type(x) is list`
   | tuple (xs : List (Obj V))          -- `type(x) is tuple`
   | dict (es : List (Obj V × Obj V))   -- `type(x) is dict`, insertion order
+  | set (ty : String) (xs : List (Obj V))   -- `type(x) is set` / `type(x) is frozenset` (`ty` names which)
   | cargs (args : List (Obj V)) (kwargs : List (String × Obj V))
                                        -- the pair `(args, kwargs)` recorded by `__call__`
+  | sub (base : String) (v : V) (items : List (Obj V))
+                                       -- the object `v`, an instance of a proper SUBCLASS of the builtin
+                                       -- container `base` (namedtuple, defaultdict, OrderedDict, a user's
+                                       -- list type …) with its members (a dict's: key, value, key, value, …)
 
 /-- what `arg_val` returns: a value, or — for the pair recorded by `__call__` —
     the rebuilt `(args, kwargs)` -/
 inductive AV (V : Type) where
   | val (v : V)
   | call (args : List V) (kwargs : List (String × V))
-
-/-- what `_t_eval` can end with -/
-inductive Err where
-  | pae (idx : Nat) (e : PyExc)      -- PathAccessError(e, Path(_t), idx)
-  | raised (e : PyExc)               -- an exception no `except` clause of the branch names
-  | unsupported                      -- outside the C02 fragment (S/A roots, 'P', wildcards, Spec of a non-T)
-  deriving DecidableEq, Repr
 
 /-- the extracted tables the model takes as a parameter -/
 structure Facts where
@@ -148,6 +171,9 @@ structure Facts where
   partIdx : List String                               -- third argument of every PathAccessError(…) in `_t_eval`
   argExempt : List String                             -- op chars the loop exempts from `arg = arg_val(…)` (`if op != '(':`)
   argShapeOk : Bool                                   -- the extractor recognised where / under which guard that statement runs
+  argExact : List String                              -- container types `_ArgValuator.mode` rebuilds, tested EXACTLY (`type(spec) in (…)`)
+  argInst : List String                               -- container types it tests with `isinstance` (subclass instances are rebuilt too)
+  argModeShapeOk : Bool                               -- the extractor recognised the shape of `_ArgValuator.mode`
   exc : ClassTable                                    -- exception classes with their MROs
 
 def dispatchOf (F : Facts) (op : String) : Option (String × List String) :=
@@ -198,11 +224,13 @@ def stepOp {V S} (F : Facts) (prim : Prim V S) (target : V) (k : Nat) (op : Stri
       | .call =>
         -- scope[glom](target, Call(cur, args, kwargs), scope); Call.glomit:
         -- r(self.func) … r(self.args), r(self.kwargs) … then the call
-        match ev (prim.revalFunc s target cur).2 with
-        | (.error e, s1) => (.error e, s1)
-        | (.ok (.call args kwargs), s1) =>
-          guarded F caught k (prim.call s1 (prim.revalFunc s target cur).1 args kwargs)
-        | (.ok (.val _), s1) => (.error .unsupported, s1)
+        match prim.revalFunc s target cur with
+        | (.error e, s0) => (.error e, s0)          -- raised by arg_val over the callee: outside every `try`
+        | (.ok f, s0) =>
+          match ev s0 with
+          | (.error e, s1) => (.error e, s1)
+          | (.ok (.call args kwargs), s1) => guarded F caught k (prim.call s1 f args kwargs)
+          | (.ok (.val _), s1) => (.error .unsupported, s1)
       | _ => (.error .unsupported, s)     -- another branch would receive the raw pair
   else
     match ev s with                             -- arg = arg_val(target, arg, scope): now, in state `s`
@@ -317,6 +345,9 @@ macro "nested_dec" : tactic => `(tactic| (
   | (have := sizeOf_snd_lt_of_mem ‹_ ∈ _›; omega)
   | (have := sizeOf_fst_lt_of_mem ‹_ ∈ _›; omega)))
 
+/-- does `_ArgValuator.mode` rebuild an object whose type IS the builtin container `t`? -/
+def rebuilds (F : Facts) (t : String) : Bool := F.argExact.contains t || F.argInst.contains t
+
 /-- `arg_val(target, o, scope)`: an evaluation in the state current when it is run -/
 def argVal {V S} (F : Facts) (prim : Prim V S) (target : V) : Obj V → Run S Err (AV V)
   | .lit v => fun s => (.ok (.val v), s)
@@ -330,22 +361,39 @@ def argVal {V S} (F : Facts) (prim : Prim V S) (target : V) : Obj V → Run S Er
     match inner with
     | .tt ops => argVal F prim target (.tt ops)   -- Spec.glomit → scope[glom](target, self.spec, scope) → _t_eval
     | _ => fun s => (.error .unsupported, s)      -- a Spec of anything else is evaluated by AUTO (C03)
-  | .list xs => fun s =>
-    match valsOf (xs.map (fun a => argVal F prim target a)) s with
-    | (.ok vs, s1) => (.ok (.val (prim.mkList s1 vs).1), (prim.mkList s1 vs).2)
-    | (.error e, s1) => (.error e, s1)
-  | .tuple xs => fun s =>
-    match valsOf (xs.map (fun a => argVal F prim target a)) s with
-    | (.ok vs, s1) => (.ok (.val (prim.mkTuple s1 vs).1), (prim.mkTuple s1 vs).2)
-    | (.error e, s1) => (.error e, s1)
-  | .dict es => fun s =>
-    match seqRun (es.map (fun p =>
-        entryRun prim (valOfRun (argVal F prim target p.1)) (valOfRun (argVal F prim target p.2)))) s with
-    | (.ok kvs, s1) =>
-      match liftExc (prim.mkDict s1 kvs).1 with
-      | .ok v => (.ok (.val v), (prim.mkDict s1 kvs).2)
-      | .error e => (.error e, (prim.mkDict s1 kvs).2)
-    | (.error e, s1) => (.error e, s1)
+  | .list xs =>
+    if rebuilds F "list" then fun s =>
+      match valsOf (xs.map (fun a => argVal F prim target a)) s with
+      | (.ok vs, s1) => (.ok (.val (prim.mkList s1 vs).1), (prim.mkList s1 vs).2)
+      | (.error e, s1) => (.error e, s1)
+    else fun s => (.error .unsupported, s)        -- no test names `list`: the object itself would be passed
+  | .tuple xs =>
+    if rebuilds F "tuple" then fun s =>
+      match valsOf (xs.map (fun a => argVal F prim target a)) s with
+      | (.ok vs, s1) => (.ok (.val (prim.mkTuple s1 vs).1), (prim.mkTuple s1 vs).2)
+      | (.error e, s1) => (.error e, s1)
+    else fun s => (.error .unsupported, s)
+  | .dict es =>
+    if rebuilds F "dict" then fun s =>
+      match seqRun (es.map (fun p =>
+          entryRun prim (valOfRun (argVal F prim target p.1)) (valOfRun (argVal F prim target p.2)))) s with
+      | (.ok kvs, s1) =>
+        match liftExc (prim.mkDict s1 kvs).1 with
+        | .ok v => (.ok (.val v), (prim.mkDict s1 kvs).2)
+        | .error e => (.error e, (prim.mkDict s1 kvs).2)
+      | (.error e, s1) => (.error e, s1)
+    else fun s => (.error .unsupported, s)
+  | .set ty xs =>
+    -- `type(spec)([recur(val) for val in spec])`: every member first, then the set is built
+    -- (an unhashable member: TypeError, in no `try` of `_t_eval`)
+    if rebuilds F ty then fun s =>
+      match valsOf (xs.map (fun a => argVal F prim target a)) s with
+      | (.ok vs, s1) =>
+        match liftExc (prim.mkSet s1 ty vs).1 with
+        | .ok w => (.ok (.val w), (prim.mkSet s1 ty vs).2)
+        | .error e => (.error e, (prim.mkSet s1 ty vs).2)
+      | (.error e, s1) => (.error e, s1)
+    else fun s => (.error .unsupported, s)
   | .cargs args kwargs => fun s =>
     match valsOf (args.map (fun a => argVal F prim target a)) s with
     | (.error e, s1) => (.error e, s1)
@@ -353,6 +401,19 @@ def argVal {V S} (F : Facts) (prim : Prim V S) (target : V) : Obj V → Run S Er
       match seqRun (kwargs.map (fun p => kwOfRun p.1 (argVal F prim target p.2))) s1 with
       | (.ok ks, s2) => (.ok (.call as ks), s2)
       | (.error e, s2) => (.error e, s2)
+  | .sub base v items =>
+    -- `type(spec) in (list, dict)` / `type(spec) in (tuple, set, frozenset)` are EXACT tests: an
+    -- instance of a subclass falls through both and `result = spec` is returned — the object itself.
+    -- Only an `isinstance` test (facts `argInst`) takes it: every member is evaluated, then
+    -- `type(spec)(…)` builds another object (or raises: not in any `try` of `_t_eval`).
+    if F.argInst.contains base then fun s =>
+      match valsOf (items.map (fun a => argVal F prim target a)) s with
+      | (.ok vs, s1) =>
+        match liftExc (prim.rebuild s1 base v vs).1 with
+        | .ok w => (.ok (.val w), (prim.rebuild s1 base v vs).2)
+        | .error e => (.error e, (prim.rebuild s1 base v vs).2)
+      | (.error e, s1) => (.error e, s1)
+    else fun s => (.ok (.val v), s)
 termination_by o => sizeOf o
 decreasing_by all_goals nested_dec
 
@@ -375,7 +436,11 @@ inductive E (V : Type) where
   | list (xs : List (E V))                   -- `[a, b, …]`
   | tuple (xs : List (E V))                  -- `(a, b, …)`
   | dict (es : List (E V × E V))             -- `{k: v, …}`
+  | set (ty : String) (xs : List (E V))      -- `{a, b, …}` (`ty = "set"`) / `frozenset([a, b, …])`
   | cargs (args : List (E V)) (kwargs : List (String × E V))   -- the arguments of a call step
+  | sub (base : String) (v : V) (items : List (E V))
+      -- a literal that is the object `v`: an instance of a proper subclass of the builtin
+      -- container `base`, whose members are `items`
 
 /-- the flat tuple `(op, arg, op, arg, …)` of a list of recorded steps -/
 def flatOfCells {V} (cells : List (String × Obj V)) : List (Obj V) :=
@@ -420,6 +485,8 @@ def record {V} (F : Facts) (pyNone : V) : E V → Option (Obj V)
           allSome (kwargs.map (fun p => (record F pyNone p.2).map (fun a => (p.1, a)))) with
     | some as, some ks => some (.cargs as ks)
     | _, _ => none
+  | .set ty xs => (allSome (xs.map (fun x => record F pyNone x))).map (.set ty)
+  | .sub base v items => (allSome (items.map (fun x => record F pyNone x))).map (.sub base v)
 termination_by e => sizeOf e
 decreasing_by all_goals nested_dec
 
